@@ -21,6 +21,7 @@ fn report(spec: &CatalogSpec, index: u64, want_sample: bool) -> RunReport {
     r.count("descriptors", run.segments);
     r.count("names", run.names);
     r.count("samples", spec.samples.len() as u64);
+    r.count(if spec.interleave_seed.is_some() { "registration.interleaved_samples" } else { "registration.sample_by_sample" }, 1);
     if run.batches >= 2 {
         r.count("probe.multi_batch_metadata", 1);
     }
@@ -53,7 +54,7 @@ impl Prop for C03 {
     fn engine(&self) -> &'static str { "catalog-sim" }
     fn level(&self) -> &'static str { "exploration" }
     fn rule(&self) -> &'static str {
-        "each evaluation = one seeded catalogue (1..130 samples; adversarial contig names: 1..n space-separated fields, equal/unequal field lengths, runs >100, empty fields, tabs, shared subsets of fields with the previous name; descriptor tables with arbitrary group ids, in-group ids that repeat/go back/are 0/jump, lengths near and far from segment_size+k) registered in generated order, stored through Archive on the sim disk in 50-sample batches (benign short reads/writes, EINTR, tiny buffers in 40% of runs), closed, reopened, loaded batch by batch and compared with the table. distinct_nontrivial = distinct catalogue digests with >=2 names."
+        "each evaluation = one seeded catalogue (1..130 samples; adversarial contig names: 1..n space-separated fields, equal/unequal field lengths, runs >100, empty fields, tabs, shared subsets of fields with the previous name; descriptor tables with arbitrary group ids, in-group ids that repeat/go back/are 0/jump, lengths near and far from segment_size+k) registered sample by sample or (35%) interleaved - a sample resumed after contigs of other samples, as when a later input file continues an earlier sample -, stored through Archive on the sim disk in 50-sample batches (benign short reads/writes, EINTR, tiny buffers in 40% of runs), closed, reopened, loaded batch by batch and compared with the table. distinct_nontrivial = distinct catalogue digests with >=2 names."
     }
     fn runs(&self, tier: Tier) -> u64 {
         match tier { Tier::Quick => 400_000, Tier::Thorough => 20_000_000 }
